@@ -430,7 +430,7 @@ impl Check for C12 {
     fn rule(&self) -> String {
         "Cases are op sequences against one structure: TimeWindow (add_event / record), WindowManager and WindowedStream in tumbling mode, StreamAlphaNode under the LD_PRELOAD virtual clock. Wherever aggregates are compared, the window's other read views (events_in_range, events_by_type, latest_timestamp) and the manager's summary views (total_event_count, get_statistics, latest_window, windows_with_event_type, aggregate_across_windows) are compared with events() / active_windows() too. \
          EXHAUSTIVE (see exhaustive_subspaces for the depth of this tier): every sequence up to the stated length over a small timestamp alphabet built around the multiples of the duration, x durations {1,2,3,5,10} ms x caps {1,2,100}; each sequence is executed from scratch and its last step is monitored, so that every step of every enumerated sequence is monitored exactly once; payload of field v is a fixed function of position and timestamp (float, integer, string, missing). \
-         SAMPLED (seeded): sequences of 1..=12 events, timestamps from base+[0,40] (base 0 or an epoch-sized value), one third snapped to a multiple of the duration +-1, in order / reversed / shuffled / mostly in order with late arrivals, duplicates arise from the small domain; durations {1,2,3,5,10} mostly, also {4,7,20,40}; caps {1,2,3,100}; window limits {1,2,3,100}; payloads float / integer / string (incl. numeric-looking) / bool / missing, in mixed, all-numeric and mostly-non-numeric styles; mixed add_event/record op sequences on sliding windows; node cases with random clock advances 0..2d and timestamps around now-d, now and the aligned interval ends. \
+         SAMPLED (seeded): sequences of 1..=12 events (one event-time case in 8: 21..=64 events), timestamps from base+[0,40] (base 0 or an epoch-sized value), one third snapped to a multiple of the duration +-1, in order / reversed / shuffled / mostly in order with late arrivals, duplicates arise from the small domain; durations {1,2,3,5,10} mostly, also {4,7,20,40}; caps {1,2,3,100}; window limits {1,2,3,100}; payloads float / integer / string (incl. numeric-looking) / bool / missing, in mixed, all-numeric, mostly-non-numeric and non-finite (NaN, +-infinity among numbers) styles; mixed add_event/record op sequences on sliding windows; node cases with random clock advances 0..2d and timestamps around now-d, now and the aligned interval ends. \
          After every monitored step: the acceptance / placement / retention clause of that structure on (events before, offered event, events after), then count/sum/average/min/max of the window(s) that changed through TimeWindow methods, Aggregator::{aggregate, aggregate_events}, operators::{Count,Sum,Average,Min,Max} and WindowedStream::{counts, aggregate} against a reference fold over exactly events(). \
          A case is non-trivial when both sides of its decision were exercised: record: some event was evicted or cap-dropped AND some older event survived a record; add_event: at least one offer accepted and one rejected; WindowManager/WindowedStream: at least 2 windows and a window with at least 2 events; node: at least one accepted event and at least one rejected or evicted one. Distinct by the full case (configuration, timestamps, payloads).".into()
     }
